@@ -311,12 +311,8 @@ func (g *Gen) next(t Tree) Op {
 			if r.Intn(2) == 0 {
 				fl |= os.O_CREATE
 			}
-			mem := g.o.Cfg.WC == "memory"
 			mode := r.Intn(3) // 0 overwrite-in-place, 1 truncate, 2 append
 			if acc != os.O_RDONLY {
-				if mem && mode == 0 && ent.Kind == "f" && ent.Size > 0 {
-					mode = 1 + r.Intn(2) // memory write cache truncates at the cursor on in-place writes (open finding O3)
-				}
 				switch mode {
 				case 1:
 					fl |= os.O_TRUNC
